@@ -4,11 +4,15 @@
    pairwise disjoint ranges of its children (C11_value_ranges + the two lemmas that say what "wf"
    means in plain terms); every failed read reports 0 <= start <= end <= length
    (C11_error_offsets); line and column are computed as the property says (C11_position ...).
-   PARTIAL: "re-reading exactly that byte range yields an equal value" is decided by the
-   correspondence run + the re-read oracle, not proved. *)
+   For whole documents of the reader fragment (integers, keywords, lists, vectors, any trivia and discarded forms in the
+   gaps, any size and nesting): every node of the tree carries EXACTLY the span of the text of the sub-term it denotes,
+   and re-reading exactly that byte range yields a value equal to the node (C11_every_range_rereads_partial).
+   PARTIAL: for the other kinds "re-reading exactly that byte range yields an equal value" is decided by the
+   correspondence run + the re-read oracle. *)
 From Coq Require Import ZArith NArith List Bool String.
 From Coq.Strings Require Import Byte.
 From Verif Require Import Lanes Common Values Scan Reader Configs ScanProofs PositionProofs FlagProofs RangeDefs RangeTok RangeInv.
+From Verif Require Import Equality RoundTrip RoundTripEq RoundTripGap RoundTripRange.
 Import ListNotations.
 Local Open Scope N_scope.
 
@@ -85,6 +89,23 @@ Example C11_example :
   /\ get_position (lf_positions 0 l) 1 = (1, 1, 2).
 Proof. vm_compute. repeat split; reflexivity. Qed.
 
+(* whole documents of the fragment: at EVERY node of the tree -- paired with the sub-term a' it was read from and the
+   offset p of that sub-term's text -- the range is exactly [p, p + length of the text), and reading the bytes of that
+   range on their own succeeds with a value denoting the same sub-term, equal to the node under the library's equality *)
+Theorem C11_every_range_rereads_partial : forall c o m a, In c all_cfgs -> gwf a ->
+  slice m 0 (List.length (gpr a)) = gpr a ->
+  exists r s n, run_doc c o m (N.of_nat (List.length (gpr a))) = Ret r s /\ r_value r = Some n /\ r_err r = EOk /\
+                tree_all (rereads c o m) a 0 n.
+Proof. exact every_range_rereads. Qed.
+(* what is claimed at each node *)
+Example C11_rereads_unfolded : forall c o m a p n, rereads c o m a p n <->
+  nrs n = p /\ nre n = p + N.of_nat (List.length (gpr a)) /\
+  exists r s n', run_doc c o (shift m (nrs n)) (nre n - nrs n) = Ret r s /\ r_value r = Some n' /\ r_err r = EOk /\
+                 denotes c (gerase a) n /\ denotes c (gerase a) n' /\
+                 ((tdepth (gerase a) <= max_depth)%nat -> equal c no_ext_equal n n' = true).
+Proof. intros. reflexivity. Qed.
+
+Print Assumptions C11_every_range_rereads_partial.
 Print Assumptions C11_value_ranges.
 Print Assumptions C11_value_ranges_run.
 Print Assumptions C11_error_offsets.
